@@ -117,6 +117,8 @@ def sparql_service_available(endpoint: str) -> bool:
 
 
 def _handle_part(part: str) -> tuple[str, float]:
+    # optional whitespace is allowed around "," and ";" (RFC 7231, section 5.3)
+    part = ";".join(piece.strip() for piece in part.split(";"))
     if ";q=" not in part:
         return part, 1.0
     key, q = part.split(";q=", 1)
